@@ -1,19 +1,22 @@
 #!/bin/sh
 # MANIFEST.setup_cmd: build the framework offline from files on disk.
-set -e
 cd "$(dirname "$0")"
 export GOFLAGS=-mod=mod GOPROXY=off
 mkdir -p .cache evidence replays
-# 1. Lean: every property module + every driver
+# 1. Lean: the property modules + drivers of every check registered in MANIFEST.json
+PROPS=$(python3 -c "import json; print(' '.join(c['property_id'] for c in json.load(open('MANIFEST.json'))['checks']))")
 cd lean
-TARGETS=""
-for d in DaeVerif/C*/; do
-  c=$(basename "$d")
-  [ -f "$d/Props.lean" ] && TARGETS="$TARGETS DaeVerif.$c.Props"
-  [ -f "$d/Main.lean" ] && TARGETS="$TARGETS $(echo "$c" | tr 'C' 'c')drv"
+lake build DaeVerif.Common.Audit DaeVerif.Common.Proto DaeVerif.Common.RuleScan || exit 1
+rc=0
+for c in $PROPS; do
+  lc=$(echo "$c" | tr 'C' 'c')
+  T=""
+  [ -f "DaeVerif/$c/Props.lean" ] && T="$T DaeVerif.$c.Props"
+  [ -f "DaeVerif/$c/Main.lean" ] && T="$T ${lc}drv"
+  if ! lake build $T; then echo "setup: lake build failed for $c"; rc=1; fi
 done
-lake build DaeVerif.Common.Audit $TARGETS
 cd ..
 # 2. warm the Go build cache for the packages the harnesses compile into
-(cd /repo && go build -tags dae_stub_ebpf ./... && go vet -tags dae_stub_ebpf ./control/ >/dev/null 2>&1 || true)
-echo setup-ok
+(cd /repo && go build -tags dae_stub_ebpf ./... ) || rc=1
+[ $rc = 0 ] && echo setup-ok
+exit $rc
